@@ -42,8 +42,9 @@ def calibrate(ctx):
     if ctx.findings or ctx.unknowns:
         ctx.extra_cov["selftest"] = "skipped: the tree itself is not clean, variants would be meaningless"
         return "Calibration corpus skipped (tree not clean)."
-    from selftest.run import run
+    from selftest.run import run, run_patches
     res = run({ctx.pid}, root=ctx.root)
+    pres = run_patches({ctx.pid}, root=ctx.root)
     ok = [r for r in res if r[2] == "ok"]
     bad = [r for r in res if r[2] in ("MISMATCH", "broken-variant")]
     from selftest.corpus import V
@@ -52,13 +53,23 @@ def calibrate(ctx):
         "variants_run": len(res), "as_expected": len(ok), "skipped_anchor_moved": sum(1 for r in res if r[2] == "skipped"),
         "breaking_detected": sum(1 for r in ok if kinds[r[0]] == "break"), "preserving_silent": sum(1 for r in ok if kinds[r[0]] == "keep"),
         "mismatches": ["%s %s" % (r[0], r[3]) for r in bad],
+        "seeded_changes_run": sum(1 for r in pres if r[0].startswith("seeded") and r[2] != "skipped"),
+        "seeded_changes_reported": sum(1 for r in pres if r[0].startswith("seeded") and r[2] == "ok"),
+        "refactorings_run": sum(1 for r in pres if r[0].startswith("refactor") and r[2] != "skipped"),
+        "refactorings_not_reported": sum(1 for r in pres if r[0].startswith("refactor") and r[2] == "ok"),
+        "refactorings_undecided": sum(1 for r in pres if r[0].startswith("refactor") and r[3] == "undecided"),
+        "patch_mismatches": ["%s %s" % (r[0], r[3]) for r in pres if r[2] == "MISMATCH"],
     }
+    bad = bad + [r for r in pres if r[2] == "MISMATCH"]
     for r in bad:
         print("SELFTEST-MISMATCH %s %s: %s" % (r[0], r[1], r[3]))
     return ("Calibration: %d corpus variants of this property analysed on scratch copies: %d breaking edits detected, %d behaviour-preserving "
-            "rewrites silent, %d skipped, %d not as expected." % (len(res), ctx.extra_cov["selftest"]["breaking_detected"],
-                                                                  ctx.extra_cov["selftest"]["preserving_silent"],
-                                                                  ctx.extra_cov["selftest"]["skipped_anchor_moved"], len(bad)))
+            "rewrites silent, %d skipped; %d/%d independently seeded breaking changes of this property reported; %d/%d independently written "
+            "behaviour-preserving refactorings not reported; %d not as expected." % (
+                len(res), ctx.extra_cov["selftest"]["breaking_detected"], ctx.extra_cov["selftest"]["preserving_silent"],
+                ctx.extra_cov["selftest"]["skipped_anchor_moved"], ctx.extra_cov["selftest"]["seeded_changes_reported"],
+                ctx.extra_cov["selftest"]["seeded_changes_run"], ctx.extra_cov["selftest"]["refactorings_not_reported"],
+                ctx.extra_cov["selftest"]["refactorings_run"], len(bad)))
 
 
 def main():
